@@ -89,8 +89,11 @@ class Sched:
                     en.append((name, "timeout"))
                 # else: an untimed get on an empty inbox waits until somebody sends
             elif kind == "join":
-                if info in self.finished:
+                target, timeout = info if isinstance(info, tuple) else (info, None)
+                if target in self.finished:
                     en.append((name, "go"))
+                elif timeout is not None:
+                    en.append((name, "timeout"))           # join(timeout=...): the controller may let the wait expire
             elif kind == "put":
                 q, block, timeout = info
                 if not q.is_full():
@@ -298,7 +301,10 @@ def install(W):
         name = getattr(self, "_ctl_name", None)
         if name is None or SCHED is None or SCHED.me() is None:
             return _oj(self, timeout)
-        SCHED.point("join", name)
+        d = SCHED.point("join", (name, timeout))
+        if d == "timeout":
+            SCHED.note(pt="join_timeout", target=name)
+            return
         SCHED.note(pt="join", target=name)
         _oj(self)
 
